@@ -265,7 +265,10 @@ func parseRaces(stderr string) [][2]string {
 }
 
 // runChild runs one child (plain or -race build) and converts what it found into failures.
-func runChild(c *lib.Ctx, exe string, race bool, in childIn, id string) (pairs [][2]string) {
+func runChild(sink *[]lib.Failure, exe string, race bool, in childIn, id string) (pairs [][2]string) {
+	failf := func(caseID, key, what string, input any) {
+		*sink = append(*sink, lib.Failure{Case: caseID, Key: key, What: what, Input: input})
+	}
 	arg, _ := json.Marshal(in)
 	ctx, cancel := context.WithTimeout(context.Background(), 240*time.Second)
 	defer cancel()
@@ -298,7 +301,7 @@ func runChild(c *lib.Ctx, exe string, race bool, in childIn, id string) (pairs [
 				break
 			}
 		}
-		c.Fail(id+"-crash", "conc:fatal:"+msg+":"+first, fmt.Sprintf("the server process died while 16 clients used the ingest API / the request mix%s: %s in %s", suffix, msg, first), replay)
+		failf(id+"-crash", "conc:fatal:"+msg+":"+first, fmt.Sprintf("the server process died while 16 clients used the ingest API / the request mix%s: %s in %s", suffix, msg, first), replay)
 		return nil
 	}
 	for _, f := range res {
@@ -306,7 +309,7 @@ func runChild(c *lib.Ctx, exe string, race bool, in childIn, id string) (pairs [
 		if f.URL != "" {
 			inp = c07in{Kind: "mix", URL: f.URL, Seed: in.Seed}
 		}
-		c.Fail(id, f.Key, f.What+suffix, inp)
+		failf(id, f.Key, f.What+suffix, inp)
 	}
 	if !race {
 		return nil
@@ -320,7 +323,7 @@ func runChild(c *lib.Ctx, exe string, race bool, in childIn, id string) (pairs [
 		if len(blk) > 1500 {
 			blk = blk[:1500]
 		}
-		c.Fail(id, "race:"+p[0]+"/"+p[1], fmt.Sprintf("the Go race detector reports a data race between %s and %s (16 goroutines: request mix and /api/cmaf-ingests)", p[0], p[1]),
+		failf(id, "race:"+p[0]+"/"+p[1], fmt.Sprintf("the Go race detector reports a data race between %s and %s (16 goroutines: request mix and /api/cmaf-ingests)", p[0], p[1]),
 			map[string]any{"kind": "race", "seed": in.Seed, "first_report": blk})
 	}
 	return pairs
@@ -329,32 +332,91 @@ func runChild(c *lib.Ctx, exe string, race bool, in childIn, id string) (pairs [
 // racePart: ingest API in a plain child (a fatal "concurrent map writes" must not take the harness
 // down), then mix + ingest API under the race detector; reported races go to Coq for the
 // translator-soundness check.
-func racePart(c *lib.Ctx, rb *raceBuild) int {
-	n := 0
-	if exe, err := os.Executable(); err == nil {
-		reps := 2
-		if c.Thorough() {
-			reps = 6
+type raceJobs struct {
+	done   chan struct{}
+	rb     *raceBuild
+	ids    []string
+	sinks  [][]lib.Failure
+	prs    [][][2]string
+	ingest int
+}
+
+// startRaceJobs runs the child processes (plain and -race builds) in the background, side by side,
+// while the harness does its in-process parts.
+func startRaceJobs(seed int64, thorough bool, rb *raceBuild) *raceJobs {
+	rj := &raceJobs{done: make(chan struct{}), rb: rb}
+	go func() {
+		defer close(rj.done)
+		type job struct {
+			exe  string
+			race bool
+			in   childIn
+			id   string
 		}
-		for r := 0; r < reps; r++ {
-			runChild(c, exe, false, childIn{Seed: c.Seed + int64(r), Ingest: true}, fmt.Sprintf("ingest-%d", r))
-			c.Count("conc:ingest-api")
-			n += 16 * 3 * 4
+		var jobs []job
+		if exe, err := os.Executable(); err == nil {
+			reps := 2
+			if thorough {
+				reps = 6
+			}
+			for r := 0; r < reps; r++ {
+				jobs = append(jobs, job{exe, false, childIn{Seed: seed + int64(r), Ingest: true}, fmt.Sprintf("ingest-%d", r)})
+				rj.ingest++
+			}
 		}
+		<-rb.done
+		if rb.err == "" {
+			inst := 1
+			if thorough {
+				inst = 4
+			}
+			jobs = append(jobs, job{rb.exe, true, childIn{Seed: seed, Instants: inst, Mix: true}, "race-mix"},
+				job{rb.exe, true, childIn{Seed: seed, Ingest: true}, "race-ingest"},
+				job{rb.exe, true, childIn{Seed: seed, Storm: true}, "race-storm"})
+		}
+		rj.sinks = make([][]lib.Failure, len(jobs))
+		rj.prs = make([][][2]string, len(jobs))
+		var wg sync.WaitGroup
+		for i := range jobs {
+			rj.ids = append(rj.ids, jobs[i].id)
+			wg.Add(1)
+			go func(i int) {
+				defer wg.Done()
+				rj.prs[i] = runChild(&rj.sinks[i], jobs[i].exe, jobs[i].race, jobs[i].in, jobs[i].id)
+			}(i)
+		}
+		wg.Wait()
+	}()
+	return rj
+}
+
+func racePart(c *lib.Ctx, rj *raceJobs) int {
+	<-rj.done
+	rb := rj.rb
+	n := rj.ingest * 16 * 3 * 4
+	for i := 0; i < rj.ingest; i++ {
+		c.Count("conc:ingest-api")
 	}
-	<-rb.done
 	if rb.err != "" {
 		c.Res.Notes = append(c.Res.Notes, "race detector not usable here (go build -race failed), concurrent parts ran as stress only: "+rb.err)
 		c.Count("race-detector:unavailable")
+	}
+	var pairs [][2]string
+	seenPair := map[[2]string]bool{}
+	for i := range rj.sinks {
+		for _, f := range rj.sinks[i] {
+			c.Fail(f.Case, f.Key, f.What, f.Input)
+		}
+		for _, p := range rj.prs[i] {
+			if !seenPair[p] {
+				seenPair[p] = true
+				pairs = append(pairs, p)
+			}
+		}
+	}
+	if rb.err != "" {
 		return n
 	}
-	inst := 2
-	if c.Thorough() {
-		inst = 4
-	}
-	pairs := runChild(c, rb.exe, true, childIn{Seed: c.Seed, Instants: inst, Mix: true}, "race-mix")
-	pairs = append(pairs, runChild(c, rb.exe, true, childIn{Seed: c.Seed, Ingest: true}, "race-ingest")...)
-	pairs = append(pairs, runChild(c, rb.exe, true, childIn{Seed: c.Seed, Storm: true}, "race-storm")...)
 	c.Count(fmt.Sprintf("race-detector:ran(build %.0fs)", rb.secs))
 	var obs []string
 	for i, p := range pairs {
